@@ -150,7 +150,9 @@ class TlSchemas:
                 elif isinstance(value, str):
                     result += bytes.fromhex(value)
             else:
-                if type_ == 'bytes':
+                if type_ in ('bytes', 'string'):
+                    if type_ == 'string' and isinstance(value, str):
+                        value = value.encode()
                     if isinstance(value, dict) and '@type' in value:
                         value = self.serialize(schema=self.get_by_name(value['@type']), data=value, boxed=True)
                     if isinstance(value, bytes):
